@@ -139,5 +139,11 @@ finally:
         for key in ("demo_fails_with_change", "demo_passes_without_change", "suite_ok", "suite_failing", "suite_failing_baseline", "demo_cmd", "demo_files", "suite_wall_s"):
             if key in prev:
                 res[key] = prev[key]
+    hist = prev.get("history", [])
+    if not hist and "caught_by_quick" in prev:
+        hist = [{"at": prev.get("verified_at"), "caught_by_quick": prev.get("caught_by_quick"), "line": prev.get("check_quick_violation_line")}]
+    if "caught_by_quick" in res:
+        hist.append({"at": res["verified_at"], "caught_by_quick": res.get("caught_by_quick"), "line": res.get("check_quick_violation_line")})
+    res["history"] = hist
     json.dump(res, open(os.path.join(DEST, "meta.json"), "w"), indent=1)
     print(json.dumps({k2: v for k2, v in res.items() if k2 not in ("agent_meta", "check_quick_tail")}, indent=1))
